@@ -643,6 +643,32 @@ func c02GenInput(r *rand.Rand, size int) *c02Input {
 		}
 		g.shape("disabled-dependency")
 	}
+	// an env file (and a label file) SHARED by two services whose values are interpolated with a variable that each service
+	// defines differently in an EARLIER file of its own (seed C02-4: a per-call cache keyed by the file path makes the first
+	// service visited in the map range decide what the other one gets from the shared file)
+	if nsvc >= 2 && g.coin(5) {
+		in.Static["greet.env"] = "GREETING=hello ${WHO}\nPLAIN=p\n"
+		in.Static["greet.labels"] = "com.greeting=hi ${WHO}\n"
+		for i := 0; i < 2; i++ {
+			sv := svcs.KV[i].V.(*om)
+			who := "who-" + svcs.KV[i].K
+			in.Static[who+".env"] = "WHO=" + svcs.KV[i].K + "\n"
+			in.Static[who+".labels"] = "WHO=" + svcs.KV[i].K + "-label\n"
+			var l []any
+			if cur, ok := getKey(sv, "env_file").([]any); ok {
+				l = cur
+			}
+			sv.Set("env_file", append(l, who+".env", M("path", "greet.env", "required", true)))
+			sv.Set("label_file", []any{who + ".labels", "greet.labels"})
+		}
+		if g.coin(4) {
+			// the same missing file, optional for one service and required for the other: an error in every order
+			svcs.KV[0].V.(*om).Set("env_file", []any{M("path", "nope.env", "required", false)})
+			svcs.KV[1].V.(*om).Set("env_file", []any{M("path", "nope.env", "required", true)})
+			g.shape("shared-missing-env-file")
+		}
+		g.shape("shared-env-file-cross-ref")
+	}
 	// a chain with two siblings at its end (r0 ← m0 ← two of the services), each adding its own entries to a list merged by
 	// appending (seed C02-1: a "clone" that shares the backing array of the base's list makes the siblings overwrite
 	// each other's entry, depending on the order they are resolved in)
